@@ -81,33 +81,39 @@ def header (v : Version) (sender : Option Bytes) (eph payloadKey : Bytes) (rs : 
           senderSecretbox := P.sbSeal payloadKey Nonce.senderKeySecretBox (P.boxPub senderSec),
           receivers := es }
 
-/-- `encryptBlock` for chunk number `i` -/
-def block (v : Version) (payloadKey headerHash : Bytes) (macKeys : List Bytes)
-    (i : Nat) (chunk : Bytes) (isFinal : Bool) : Except Err Bytes :=
+/-- `encryptBlock` for chunk number `i`, as the packet structure -/
+def blockStruct (v : Version) (payloadKey headerHash : Bytes) (macKeys : List Bytes)
+    (i : Nat) (chunk : Bytes) (isFinal : Bool) : Except Err EncBlock :=
   if !blockNumberOK i then .error .packetOverflow
   else
     let nonce := Nonce.chunkSecretBox i
     let ct := P.sbSeal payloadKey nonce chunk
     match payloadHash P v headerHash nonce ct isFinal with
     | .error e => .error e
-    | .ok h =>
-      match encBlockVal v (macKeys.map (fun k => payloadAuthenticator P k h)) ct isFinal with
-      | .error e => .error e
-      | .ok val => .ok (encode val)
+    | .ok h => .ok ⟨macKeys.map (fun k => payloadAuthenticator P k h), ct, isFinal⟩
 
-def blocks (v : Version) (payloadKey headerHash : Bytes) (macKeys : List Bytes) :
-    List (Bytes × Bool) → Nat → Except Err Bytes
+def blockStructs (v : Version) (payloadKey headerHash : Bytes) (macKeys : List Bytes) :
+    List (Bytes × Bool) → Nat → Except Err (List EncBlock)
   | [], _ => .ok []
   | (c, f) :: rest, i =>
-    match block P v payloadKey headerHash macKeys i c f, blocks v payloadKey headerHash macKeys rest (i + 1) with
-    | .ok b, .ok bs => .ok (b ++ bs)
+    match blockStruct P v payloadKey headerHash macKeys i c f, blockStructs v payloadKey headerHash macKeys rest (i + 1) with
+    | .ok b, .ok bs => .ok (b :: bs)
     | .error e, _ => .error e
     | _, .error e => .error e
 
-/-- the complete binary message, given resolved randomness; `rs` is the
-    receiver list *in header order* -/
-def sealWith (bs : Nat) (v : Version) (sender : Option Bytes) (rs : List Recipient)
-    (eph payloadKey : Bytes) (pt : Bytes) : Except Err Bytes :=
+/-- bytes of the payload packets -/
+def encodeBlocks (v : Version) : List EncBlock → Except Err Bytes
+  | [] => .ok []
+  | b :: bs =>
+    match encBlockVal v b.auths b.ct b.final, encodeBlocks v bs with
+    | .ok val, .ok rest => .ok (encode val ++ rest)
+    | .error e, _ => .error e
+    | _, .error e => .error e
+
+/-- what `Seal` produces, as structures: header, header bytes, payload packets;
+    `rs` is the receiver list *in header order* -/
+def sealPackets (bs : Nat) (v : Version) (sender : Option Bytes) (rs : List Recipient)
+    (eph payloadKey : Bytes) (pt : Bytes) : Except Err (EncHeader × Bytes × List EncBlock) :=
   if !knownVersion v then .error .badVersion
   else match checkReceivers rs with
   | .error e => .error e
@@ -120,9 +126,19 @@ def sealWith (bs : Nat) (v : Version) (sender : Option Bytes) (rs : List Recipie
       match macKeysSender P v (sender.getD eph) eph hh rs 0 with
       | .error e => .error e
       | .ok mks =>
-        match blocks P v payloadKey hh mks (chunkPlan v bs pt) 0 with
+        match blockStructs P v payloadKey hh mks (chunkPlan v bs pt) 0 with
         | .error e => .error e
-        | .ok body => .ok (headerPacket headerBytes ++ body)
+        | .ok blks => .ok (h, headerBytes, blks)
+
+/-- the complete binary message, given resolved randomness -/
+def sealWith (bs : Nat) (v : Version) (sender : Option Bytes) (rs : List Recipient)
+    (eph payloadKey : Bytes) (pt : Bytes) : Except Err Bytes :=
+  match sealPackets P bs v sender rs eph payloadKey pt with
+  | .error e => .error e
+  | .ok (_, headerBytes, blks) =>
+    match encodeBlocks v blks with
+    | .error e => .error e
+    | .ok body => .ok (headerPacket headerBytes ++ body)
 
 def sealMsg := sealWith P blockSize
 
